@@ -7,7 +7,7 @@
 
 use crate::argvgen;
 use crate::c02;
-use crate::c13::{stdin_docs, StdinSpec};
+use crate::c13::stdin_docs;
 use crate::proc::{Outcome, Stdin};
 use crate::rng::Rng;
 use crate::sim::*;
@@ -44,6 +44,10 @@ pub struct Scenario {
     pub sim_now: i64,
     pub delta: i64,
     pub perturbs: Vec<Perturb>,
+    /// the directory handed to -C is a sub-directory of the work tree (zerv must refuse it the
+    /// same way from every cwd) instead of the repository root
+    #[serde(default)]
+    pub target_sub: bool,
 }
 
 pub const TZS: &[(&str, i32)] = &[
@@ -101,7 +105,7 @@ fn gen_perturbs(r: &mut Rng, git: bool) -> Vec<Perturb> {
     out.push(Perturb { lang: Some(r.pick(LOCALES).to_string()), lc_all: if r.chance(1, 2) { Some(r.pick(LOCALES).to_string()) } else { None }, label: "locale".into(), ..Default::default() });
     out.push(Perturb { noise: noise_vars(r), label: "noise".into(), ..Default::default() });
     if git {
-        out.push(Perturb { cwd: 1 + r.below(7) as u8, label: "cwd".into(), ..Default::default() });
+        out.push(Perturb { cwd: 1 + r.below(9) as u8, label: "cwd".into(), ..Default::default() });
     }
     while (out.len() as u64) < n {
         let mut p = Perturb { label: "mix".into(), ..Default::default() };
@@ -118,7 +122,7 @@ fn gen_perturbs(r: &mut Rng, git: bool) -> Vec<Perturb> {
             p.lc_time = Some(r.pick(LOCALES).to_string());
         }
         if git && r.chance(1, 2) {
-            p.cwd = r.below(8) as u8;
+            p.cwd = r.below(10) as u8;
         }
         if r.chance(1, 2) {
             p.noise = noise_vars(r);
@@ -135,6 +139,8 @@ fn gen_perturbs(r: &mut Rng, git: bool) -> Vec<Perturb> {
 pub const PURE_TEMPLATES: &[&str] = &[
     "{{ semver }}|{{ pep440 }}",
     "{{ hash(value=bumped_branch, length=12) }}/{{ hash_int(value=bumped_branch, length=9) }}",
+    "{{ hash(value=bumped_branch, length=40) }}/{{ hash_int(value=bumped_branch, length=30) }}",
+    "{{ hash_int(value=bumped_branch, length=25, allow_leading_zero=true) }}|{{ hash(value=bumped_commit_hash, length=64) }}",
     "{{ hash_int(value=bumped_branch, length=5, allow_leading_zero=true) }}",
     "{{ format_timestamp(value=bumped_timestamp, format='%Y-%m-%d %H:%M:%S') }}|{{ bumped_timestamp }}",
     "{{ format_timestamp(value=bumped_timestamp, format='%A %B %c %x %X %p %Z %z') }}",
@@ -234,7 +240,8 @@ pub fn generate(r: &mut Rng, _tier: Tier, _group: u64) -> serde_json::Value {
     .clamp(0, 4_294_000_000);
     let delta = *r.pick(&[1i64, 59, 3600, 86_400, 40_000, 31_536_000, 100_000_000]);
     let perturbs = gen_perturbs(r, source == "git");
-    let sc = Scenario { actors, ops, source: source.into(), stdin_doc, argv, sim_now, delta, perturbs };
+    let target_sub = source == "git" && r.chance(1, 6);
+    let sc = Scenario { actors, ops, source: source.into(), stdin_doc, argv, sim_now, delta, perturbs, target_sub };
     serde_json::to_value(sc).unwrap()
 }
 
@@ -277,28 +284,37 @@ impl<'a> Exec<'a> {
                 args.insert(1, v);
                 args.insert(1, "-C".into());
             };
+            // the directory zerv is pointed at
+            let target = if self.sc.target_sub { self.repo.join("zsim-sub/deeper") } else { self.repo.clone() };
+            let _ = std::fs::create_dir_all(target.join("zsim-child"));
+            let target_s = target.to_string_lossy().to_string();
             match p.cwd {
-                1 => cwd = self.repo.clone(),
-                2 => {
+                1 if !self.sc.target_sub => cwd = target.clone(), // no -C: upward search, same root
+                2 if !self.sc.target_sub => {
                     cwd = self.repo.join("zsim-sub/deeper");
                     let _ = std::fs::create_dir_all(&cwd);
                 }
                 3 => {
-                    cwd = self.repo.parent().unwrap().to_path_buf();
-                    dash_c(&mut args, "repo".into());
+                    cwd = target.parent().unwrap().to_path_buf();
+                    dash_c(&mut args, target.file_name().unwrap().to_string_lossy().to_string());
                 }
-                4 => dash_c(&mut args, format!("{repo_s}/")),
+                4 => dash_c(&mut args, format!("{target_s}/")),
                 5 => {
-                    let link = self.rd.dir.join("link-to-repo");
-                    let _ = std::os::unix::fs::symlink(&self.repo, &link);
+                    let link = self.rd.dir.join("link-to-target");
+                    let _ = std::os::unix::fs::symlink(&target, &link);
                     dash_c(&mut args, link.to_string_lossy().to_string());
                 }
-                6 => dash_c(&mut args, format!("{repo_s}/.")),
-                7 => {
-                    let _ = std::fs::create_dir_all(self.repo.join("zsim-sub"));
-                    dash_c(&mut args, format!("{repo_s}/zsim-sub/.."));
+                6 => dash_c(&mut args, format!("{target_s}/.")),
+                7 => dash_c(&mut args, format!("{target_s}/zsim-child/..")),
+                1 | 8 => {
+                    cwd = target.clone();
+                    dash_c(&mut args, ".".into());
                 }
-                _ => dash_c(&mut args, repo_s.clone()),
+                2 | 9 => {
+                    cwd = target.clone();
+                    dash_c(&mut args, target_s.clone());
+                }
+                _ => dash_c(&mut args, target_s.clone()),
             }
         }
         let mut env: Vec<(String, String)> = vec![];
@@ -398,9 +414,41 @@ pub fn execute(ctx: &Ctx, scv: &serde_json::Value, rd: &RunDir, stats: &mut Stat
     stats.bump(if base.ok() { "reference_ok" } else { "reference_failed" });
 
     // ---- oracle 1: same instant, perturbed environment
-    for (pi, p) in sc.perturbs.iter().enumerate() {
-        let o = run_zerv(ctx, rd, &ex.call(&sc.argv, p, sc.sim_now), stats);
+    // plain repetition of the reference first: if that alone differs, zerv is nondeterministic from
+    // process to process and the environment perturbations would only repeat the same report
+    let mut nondeterministic = false;
+    for rep in 0..4 {
+        let o = run_zerv(ctx, rd, &ex.call(&sc.argv, &reference, sc.sim_now), stats);
         stats.bump("executions");
+        stats.bump("perturb.repeat");
+        if !same(&base, &o) {
+            viol.push(mk(
+                "env-independence",
+                "repeat",
+                format!("{} stdout={:?}", base.status_str(), short(&base.out_str(), 600)),
+                format!("{} stdout={:?} stderr={:?}", o.status_str(), short(&o.out_str(), 600), short(&o.err_str(), 200)),
+                format!("the reference execution repeated in a fresh process (repetition {rep}), same environment, same instant"),
+            ));
+            nondeterministic = true;
+            break;
+        }
+    }
+    // at least 10 fresh processes per scenario, also after minimisation has dropped perturbations:
+    // a per-process random choice must get its chance to differ
+    let reps = (10 / sc.perturbs.len().max(1)).max(1);
+    for (pi, p) in sc.perturbs.iter().enumerate() {
+        if nondeterministic {
+            break;
+        }
+        let mut o = run_zerv(ctx, rd, &ex.call(&sc.argv, p, sc.sim_now), stats);
+        stats.bump("executions");
+        for _ in 1..reps {
+            if !same(&base, &o) {
+                break;
+            }
+            o = run_zerv(ctx, rd, &ex.call(&sc.argv, p, sc.sim_now), stats);
+            stats.bump("executions");
+        }
         stats.event(format!("perturb {pi} {} tz={:?} lang={:?} lc_all={:?} cwd={} noise={} -> {} out={}", p.label, p.tz, p.lang, p.lc_all, p.cwd, p.noise.len(), o.status_str(), short(&norm(ctx, &o.out_str()), 300)));
         // effectiveness of the perturbation (for the distinct count)
         let mut kinds: Vec<String> = vec![];
@@ -457,7 +505,18 @@ pub fn execute(ctx: &Ctx, scv: &serde_json::Value, rd: &RunDir, stats: &mut Stat
     let o2 = run_zerv(ctx, rd, &ex.call(&sc.argv, &reference, now2), stats);
     stats.bump("executions");
     let is_flow = sc.argv.first().map(|s| s == "flow").unwrap_or(false);
-    let (model_dirty, model_dist) = match &world {
+    // the model used for the expectation is blind to nested tags, as zerv is (known finding
+    // KF-C02-nested-tag): what is judged here is independence of the environment, not tag discovery
+    let world_eff: Option<World> = world.as_ref().map(|w| {
+        let mut w2 = w.clone();
+        for t in w2.tags.iter_mut() {
+            if t.kind == TagKind::Nested {
+                t.alive = false;
+            }
+        }
+        w2
+    });
+    let (model_dirty, model_dist) = match &world_eff {
         Some(w) => {
             let fmt = arg_val(&sc.argv, "--input-format").unwrap_or("auto");
             let e = c02::expect(w, fmt);
@@ -499,7 +558,7 @@ pub fn execute(ctx: &Ctx, scv: &serde_json::Value, rd: &RunDir, stats: &mut Stat
     }
 
     // ---- oracle 3: date-derived components are the UTC calendar fields of the instant concerned
-    if let Some(w) = &world {
+    if let Some(w) = &world_eff {
         let fmt = "auto";
         let e = c02::expect(w, fmt);
         if let (Some(h), false) = (e.head, e.nearest.is_empty()) {
